@@ -228,19 +228,22 @@ def main():
         if not any(b['stage'] in ('cxx', 'extraction') for b in broken):
             broken.append({'stage': 'correspondence', 'detail': 'drivers unavailable'})
 
-    if a.tier == 'thorough' and cases and st.get('cxx_exe'):
-        # the same cases through an AddressSanitizer / UndefinedBehaviorSanitizer build of the driver: memory errors and
-        # undefined casts in the library abort the driver and show up as crashed cases
+    if cases and st.get('cxx_exe') and not os.environ.get('VERIF_NO_SANITIZER'):
+        # the same cases (quick tier: a seeded sample of them) through an AddressSanitizer / UndefinedBehaviorSanitizer build of the
+        # driver: memory errors and undefined casts in the library abort the driver and show up as crashed cases
         try:
             t1 = time.time()
             flags = '-g -fsanitize=address,undefined,float-cast-overflow -fno-sanitize-recover=all' + (' -DVERIF_MPI' if use_mpi else '')
             san = tie.cxx_build(flags, 'asan-mpi' if use_mpi else 'asan')
             env = dict(os.environ); env['ASAN_OPTIONS'] = 'detect_leaks=0'; env['VERIF_TMP'] = os.path.join(BUILD, 'tmp')
-            lines = [dump([i, t, cmd, args, []]) for (i, t, cmd, args) in cases]
-            outs = tie.run_driver(san, lines, env=env, chunk=40, timeout=3000, cpu_limit=900, mem_limit=None)      # (ASan reserves terabytes of address space)
+            san_cases = list(cases)
+            if a.tier != 'thorough' and len(san_cases) > 160:
+                rng3 = random.Random(seed * 104729 + int(pid[1:])); san_cases = rng3.sample(san_cases, 160)
+            lines = [dump([i, t, cmd, args, []]) for (i, t, cmd, args) in san_cases]
+            outs = tie.run_driver(san, lines, env=env, chunk=10, timeout=3000, cpu_limit=900, mem_limit=None)      # (ASan reserves terabytes of address space)
             undefined = set(r['case'][0] for r in results if textcmp.has_ub(r['model'])) if cxx_results is not None else set()
-            crashed = [(c_, o) for c_, o in zip(cases, outs) if o.startswith('(crash') and c_[0] not in undefined]      # (inputs on which the model already reports undefined behaviour are excluded)
-            thorough_extra['sanitizer'] = {'cases': len(cases), 'crashed': len(crashed), 'wall_s': round(time.time() - t1, 1)}
+            crashed = [(c_, o) for c_, o in zip(san_cases, outs) if o.startswith('(crash') and c_[0] not in undefined]      # (inputs on which the model already reports undefined behaviour are excluded)
+            thorough_extra['sanitizer'] = {'cases': len(san_cases), 'crashed': len(crashed), 'wall_s': round(time.time() - t1, 1)}
             for c_, o in crashed[:3]:
                 sanitizer_viol.append({'what': 'the sanitizer build (ASan + UBSan) aborts on this input: %s' % bytes.fromhex(o.split('"')[1]).decode(errors='replace')[-260:] if '"' in o else o[:200],
                                        'cases': [dump(list(c_[:4]) + [[]])], 'observed': o[:400]})
